@@ -128,6 +128,13 @@ def generate(rs: int, tier: str, index: int) -> dict:
             st["n"] = c.choice([2, 2, 3])
             if c.sub("ntype").chance(0.3):
                 st["n_type"] = c.sub("ntype").choice(["int64", "int8", "uint8", "uint64", "0d"])  # the power arrives as a numpy scalar / 0-d array
+            cl = c.sub("nlist")
+            if "n_type" not in st and cl.chance(0.3):
+                # one base, a whole array of powers (p ** [3, 1, 2]): element i is the i-th power
+                st["n_list"] = [cl.choice([0, 1, 2, 3]) for _ in range(cl.between(3, 4))]
+                st["n_at"] = cl.below(len(st["n_list"]))
+                st["n_list"][st["n_at"]] = st["n"]
+                st["n_list_2d"] = cl.chance(0.3) and len(st["n_list"]) == 4
             if c.chance(0.25):
                 st["n"] = c.choice([4099, 2053, 1031, 4099])  # only used on single-term bases whose result is unrepresentable
         if kind == "struct":
@@ -172,6 +179,13 @@ def generate(rs: int, tier: str, index: int) -> dict:
         journey["options"] = {"retain_names": co.chance(0.3), "retain_coefficients": co.chance(0.5)}
     if co.chance(0.3):
         journey["exp_layout"] = co.choice(["F", "narrow", "narrow"])
+    cm = ch.sub("journey-mem")
+    if cm.chance(0.3):
+        # narrower coefficient types take other writers inside numpoly; and what a fresh buffer holds before it is
+        # written (HeapSeam) must never show up as a term
+        journey["coef_dtype"] = cm.choice(["int32", "int32", "int16"])
+    if cm.chance(0.3):
+        journey["fill"] = cm.choice(["a5", "ff", "stale", "prng"])
     return {"property": ID, "run_seed": rs, "tier": tier, "prelude": prelude.gen_prelude(core.Chooser(rs, "prelude")), "steps": [journey]}
 
 
@@ -191,10 +205,12 @@ def _build(m: Dict[tuple, int], names: List[str]) -> Any:
         matrix = numpy.asfortranarray(matrix)  # the same matrix, stored column by column
     elif _LAYOUT[0] == "narrow" and matrix.size and matrix.min() >= 0:
         matrix = matrix.astype(numpy.min_scalar_type(int(matrix.max())))  # the smallest unsigned type that holds the exponents
-    return numpoly.polynomial_from_attributes(matrix, [numpy.array(v) for v in m.values()], tuple(names), retain_coefficients=True, retain_names=True)
+    return numpoly.polynomial_from_attributes(matrix, [numpy.array(v, dtype=_CDTYPE[0]) for v in m.values()], tuple(names), retain_coefficients=True, retain_names=True)
 
 
 _LAYOUT = ["C"]
+_CDTYPE: List[Any] = [None]
+_LIMIT = {None: 2 ** 62, "int32": 2 ** 30, "int16": 2 ** 14}
 
 
 def _build_subset(m: Dict[tuple, int], names: List[str]) -> Any:
@@ -392,16 +408,36 @@ class Runner:
                         if len(m) != 1 or nv != 1 or top * n_pow <= MAXEXP or top < 70:
                             n_pow = 2  # the long chain of multiplications is only affordable when it must fail early
                     nt = st.get("n_type") if n_pow <= 3 else None
-                    res = p ** (n_pow if not nt else numpy.array(n_pow) if nt == "0d" else numpy.dtype(nt).type(n_pow))
+                    def model_pow(n_: int) -> Dict[tuple, int]:
+                        acc: Dict[tuple, int] = {(0,) * nv: 1}
+                        for _ in range(n_):
+                            nxt: Dict[tuple, int] = {}
+                            for k1, c1 in acc.items():
+                                for k2, c2 in m.items():
+                                    key = tuple(a + b for a, b in zip(k1, k2))
+                                    nxt[key] = nxt.get(key, 0) + c1 * c2
+                            acc = {k: v for k, v in nxt.items() if v}
+                        return acc
+
+                    if st.get("n_list") and n_pow == st["n"] and n_pow <= 3:
+                        ns = list(st["n_list"])
+                        arr = p ** (numpy.array(ns).reshape(2, 2) if st.get("n_list_2d") else ns)
+                        self.bump("probe:array_of_powers")
+                        flat = arr.ravel() if isinstance(arr, numpoly.ndpoly) else None
+                        if flat is None or flat.shape != (len(ns),):
+                            raise core.Violation("shape", "pow", f"p ** {ns} has shape {getattr(arr, 'shape', None)}")
+                        lim = _LIMIT[step.get("coef_dtype")]
+                        for i_, n_ in enumerate(ns):
+                            w_ = model_pow(n_)
+                            if i_ != st["n_at"] and all(abs(v) < lim for v in w_.values()):
+                                h_ = _read(flat[i_], names)
+                                if h_ != w_:
+                                    raise core.Violation("monomial-set", "pow", f"element {i_} of p ** {ns} reads {h_}, expected p ** {n_} = {w_}")
+                        res = flat[st["n_at"]]
+                    else:
+                        res = p ** (n_pow if not nt else numpy.array(n_pow) if nt == "0d" else numpy.dtype(nt).type(n_pow))
                     st = dict(st, n=n_pow)
-                    want = {(0,) * nv: 1}
-                    for _ in range(st["n"]):
-                        nxt: Dict[tuple, int] = {}
-                        for k1, c1 in want.items():
-                            for k2, c2 in m.items():
-                                key = tuple(a + b for a, b in zip(k1, k2))
-                                nxt[key] = nxt.get(key, 0) + c1 * c2
-                        want = {k: v for k, v in nxt.items() if v}
+                    want = model_pow(st["n"])
                 elif kind == "deriv":
                     i = st["var"]
                     var: Any = names[i] if st["by"] == "name" else i if st["by"] == "index" else numpoly.polynomial_from_attributes([[int(j == i) for j in range(nv)]], [1], tuple(names))
@@ -496,7 +532,7 @@ class Runner:
                     self.bump("undecided:stage-raises-large-exponent")
                 self.events.append([idx, kind, "raised", type(exc).__name__])
                 return
-            if want is not None and any(abs(v) >= 2 ** 62 for v in want.values()):
+            if want is not None and any(abs(v) >= _LIMIT[step.get("coef_dtype")] for v in want.values()):
                 self.bump("undecided:coefficient-would-overflow-int64")
                 return
             self.bump("decided")
@@ -591,12 +627,17 @@ class Runner:
             else:
                 import numpoly
 
+                import contextlib
+
                 _LAYOUT[0] = step.get("exp_layout", "C")
+                _CDTYPE[0] = step.get("coef_dtype")
+                heap = seams.Env(core.H(self.rs, "heap"), sort="stable", fill=step["fill"]) if step.get("fill") else contextlib.nullcontext()
                 try:
-                    with numpoly.global_options(**(step.get("options") or {})):
+                    with heap, numpoly.global_options(**(step.get("options") or {})):
                         self.do_journey(step)
                 finally:
                     _LAYOUT[0] = "C"
+                    _CDTYPE[0] = None
 
 
 def execute(plan: dict) -> dict:
